@@ -9,7 +9,7 @@ one() {
   id=$1; prop=${id:0:3}; wt=/tmp/mut/$id
   rm -rf $wt $wt.build $wt.out
   git -C /repo worktree add --detach $wt HEAD >/dev/null 2>&1 || { echo "$id WORKTREE-FAIL"; return; }
-  if ! git -C $wt apply /verif/seeded/$id/patch.diff; then echo "$id PATCH-FAIL"; else
+  if ! git -C $wt apply /verif/seeded/$id/patch.diff 2>/dev/null && ! git -C $wt apply -3 /verif/seeded/$id/patch.diff >/dev/null 2>&1; then echo "$id PATCH-FAIL"; else
     out=$(cd /verif && VERIF_REPO=$wt VERIF_BUILD=$wt.build VERIF_OUT=$wt.out VERIF_NO_SELFTEST=1 ./verif check $prop 2>&1)
     rc=$?
     rules=$(echo "$out" | grep -o "rule=[A-Za-z0-9_.]*" | sort -u | tr '\n' ' ')
